@@ -449,6 +449,7 @@ func (prop) Child(b core.Batch, o *core.Obs) {
 			}
 		}
 		o.End(k)
+		lab.Events.Forget(lab.Events.Len()) // every scenario is judged on the events since its start: keep the store small
 		if k%20 == 19 || k == to-1 {
 			// memory that keeps growing with every client gone: two windows of four samples 150 ms apart, one
 			// second between them; both must show heap and resident memory strictly increasing by more than
